@@ -225,7 +225,7 @@ Proof.
     + intros e He. split; [eapply held_bound; eauto|auto].
   - destruct Hscan as (dup & E1 & E2 & E3 & E4 & E5). rewrite E1 in *.
     destruct (log_wf_delete _ _ c Hw ltac:(lia)) as [D1 D2].
-    unfold do_delete. cbn [next_fail negb].
+    unfold do_delete. cbn [next_fail negb]. destruct (conflict_pred a news) as [cpi cpt].
     match goal with |- context [store_new _ _ _ ?S3 _ _ _] => set (s3 := S3) end.
     assert (Hd3 : d_log s3 = log_delete (d_log s2) c (v_lastLogIdx s2))
       by (unfold s3; destruct (c <=? v_latestIdx _); reflexivity).
